@@ -215,6 +215,12 @@ func (c *c07) RunCase(r *fw.Rec, cs fw.Case) {
 	c07InstallYield(uint64(rng.Int63()))
 	defer func() { tengo.VerifYield = nil }()
 	ctx, cancel := context.WithCancel(context.Background())
+	if k == 0 && rng.Intn(2) == 0 {
+		// an expired deadline instead of an explicit cancel: the returned error must be ctx.Err() of that kind
+		cancel()
+		r.Inc("ctx:expired-deadline")
+		ctx, cancel = context.WithDeadline(context.Background(), time.Now().Add(-time.Second))
+	}
 	defer cancel()
 	pr := &c07Probe{cancelAt: k, cancel: cancel}
 	if k == 0 {
@@ -271,7 +277,11 @@ func (c *c07) RunCase(r *fw.Rec, cs fw.Case) {
 			return
 		}
 		r.Inc("result:own(nil)")
-	case errors.Is(runErr, context.Canceled):
+	case errors.Is(runErr, context.Canceled) || errors.Is(runErr, context.DeadlineExceeded):
+		if ctx.Err() == nil || runErr != ctx.Err() {
+			r.Violate("wrong-context-error", "RunContext returned a context error that is not ctx.Err()", detail)
+			return
+		}
 		if !cancelledBeforeReturn {
 			r.Violate("cancelled-without-cancel", "RunContext returned context.Canceled although the context was not cancelled", detail)
 			return
